@@ -4,8 +4,9 @@ Proof half: OPM.Properties.C33 — for every database and notification: a subscr
 configured, the notification is fresh, the row's user has a preference row that contains the topic, whose recorded
 roles give access to the unit and whose scope selects the unit, and the row is not the contributor a new-contributor
 notification is about; no row is posted twice in any database reachable through the repository operations.
-Tie half: real `WebPushRepository` on in-memory SQLite + real `WebPushPublisher.publish_message` with a fake
-`_post_webpush`, vs the model, on generated histories of preference saves / subscriptions / deletions / publishes.
+Tie half: real `WebPushRepository` on in-memory SQLite + real `WebPushPublisher` (public constructor, `publish_message`);
+deliveries are observed at the outgoing HTTP request (`httpx.AsyncClient.send`, patched on the library class),
+vs the model, on generated histories of preference saves / subscriptions / deletions / publishes.
 End-to-end stream: a registered engine and the real `FromFrontend.save_method / request_cancel / request_force /
 excute_command / excute_control_button_command` (fake dispatcher answering ok) in front of the real publisher, so that the
 notification is constructed by `publish_new_contributor_notification`; the oracle takes the contributor from the request.
@@ -42,7 +43,9 @@ META = dict(
                "cannot be stored through the API; topics are numbered by their position in the enum of the tree under test (no "
                "hard-coded indices, the model is parametric in the number of NEW_CONTRIBUTOR). Every subscribe call is a subscription (user, endpoint); the same endpoint posted twice or by two users gives two (the oracle derives them from the history, not from the table). Trusted: Lean "
                "kernel (+ propext/Classical.choice/Quot.sound), the harness, SQLAlchemy/SQLite (IN, rowid allocation: "
-               "differential only). Encryption and the HTTP post are replaced by a recording sender.",
+               "differential only). Deliveries are observed at the library boundary (httpx.AsyncClient.send; webpush.WebPush.get is "
+               "stubbed to label the request with the subscription), never through private names of the publisher; a "
+               "self-check at the start of each run turns a dead hook into a broken tie, not into a verdict.",
     technique="Lean 4 proof (membership characterisation of the three scope lists + SQL IN as filter; sublist argument "
               "for at-most-once; database invariants by induction over operation histories) + differential "
               "correspondence (exhaustive single-user scope + random multi-user histories + malformed) + property oracle",
@@ -169,13 +172,93 @@ def _epnum(url: str) -> int:
     return int(tail) if tail.isdigit() else 10 ** 6
 
 
+# ---------------------------------------------------------------------------------------------------------
+# Observation boundary.  Deliveries are observed where they leave the process: the HTTP request the publisher finally
+# sends (`httpx.AsyncClient.send`, patched on the LIBRARY class, so neither the names of the publisher's private
+# methods nor its import style matter), and the encryption step of the `webpush` library (`WebPush.get`, also patched
+# on the library class) is replaced by a stub that labels the request with the subscription's `auth` key — the harness
+# gives every subscribe call its own `auth`, so a request identifies the subscribe call it belongs to.  `time.time` is
+# pinned on the `time` module itself.  Only public entry points are driven: `WebPushPublisher(...)`,
+# `publish_message`, the public repository methods, the `FromFrontend` requests.
+
+class HarnessFault(RuntimeError):
+    """The harness could not establish the tie with the implementation (never a property failure)."""
+
+
+class _Hooks:
+    def __init__(self):
+        self.sent: list[tuple[str | None, str]] = []      # (label of the subscribe call, request url)
+
+    def __enter__(self):
+        import time as time_mod
+        import httpx
+        import webpush
+        import ssl
+        self._saved = (httpx.AsyncClient.send, webpush.WebPush.get, time_mod.time, ssl.SSLContext.load_verify_locations)
+        # every `httpx.AsyncClient()` loads the CA bundle (20 ms); no request reaches the network here, so skip that
+        ssl.SSLContext.load_verify_locations = lambda self_ctx, *a, **k: None
+        hooks = self
+
+        async def send(client, request, *a, **k):
+            hooks.sent.append((request.headers.get("x-verif-sub"), str(request.url)))
+            return httpx.Response(201, request=request)
+
+        def get(wp_self, *a, **k):
+            sub = k.get("subscription")
+            if sub is None:
+                sub = next((x for x in list(a) + list(k.values()) if hasattr(x, "keys") and hasattr(x, "endpoint")), None)
+            label = str(sub.keys.auth) if sub is not None else "?"
+            return types.SimpleNamespace(encrypted=b"verif", headers={"x-verif-sub": label})
+
+        httpx.AsyncClient.send = send
+        webpush.WebPush.get = get
+        time_mod.time = lambda: float(NOW)
+        return self
+
+    def __exit__(self, *exc):
+        import time as time_mod
+        import httpx
+        import webpush
+        import ssl
+        httpx.AsyncClient.send, webpush.WebPush.get, time_mod.time, ssl.SSLContext.load_verify_locations = self._saved
+        return False
+
+
+_publisher_state: dict = {}
+
+
+def _publisher():
+    """One real WebPushPublisher per process, built by its public constructor (VAPID keys in a temp directory)."""
+    if not _publisher_state:
+        import os
+        import shutil
+        import tempfile
+        import webpush
+        from openpectus.aggregator.webpush_publisher import WebPushPublisher
+        os.environ.setdefault("WEBPUSH_SUBSCRIBER_EMAIL", "verif@example.org")
+        d = tempfile.mkdtemp(prefix="verif-c33-")
+        try:
+            pub = WebPushPublisher(d)
+        finally:
+            shutil.rmtree(d, ignore_errors=True)
+        # the attribute that holds the configured sender, found by role (its value is the library's WebPush object)
+        attrs = [k for k, v in vars(pub).items() if isinstance(v, webpush.WebPush)]
+        if len(attrs) != 1:
+            raise HarnessFault(f"cannot find the WebPush object of the publisher (attributes {sorted(vars(pub))})")
+        _publisher_state.update(pub=pub, attr=attrs[0], wp=getattr(pub, attrs[0]))
+    return _publisher_state["pub"]
+
+
+def _configure(pub, configured: bool) -> None:
+    setattr(pub, _publisher_state["attr"], _publisher_state["wp"] if configured else None)
+
+
 def execute(case):
     """Runs the history on the real code. Per op: ("ok",) | ("id", n) | ("U", [users]) | ("del", (user, endpoint)|None) |
     ("P", [posted row ids in call order], rows [(id, user)] in the table at that moment,
           [(user, endpoint) of every subscription object handed to the sender])."""
     import openpectus.aggregator.data.models as DMdl
     import openpectus.aggregator.models as Mdl
-    import openpectus.aggregator.webpush_publisher as wpp
     from openpectus.aggregator.data import database
     from openpectus.aggregator.data.repository import WebPushRepository
     from sqlalchemy import delete, select
@@ -191,15 +274,20 @@ def execute(case):
             conn.execute(delete(DMdl.WebPushSubscription))
             conn.execute(delete(DMdl.WebPushNotificationPreferences))
     _db_cases += 1
-    publisher = object.__new__(wpp.WebPushPublisher)     # no key files, no VAPID set-up
-    posted: list[int] = []
-    posted_pairs: list[tuple[int, int]] = []
+    publisher = _publisher()
+    hooks = _Hooks()
+    calls: dict[str, tuple[int, int, int | None]] = {}   # label of a subscribe call -> (user, endpoint, row id)
 
-    async def fake_post(subscription, _repo, _notification):
-        posted.append(subscription.id)
-        posted_pairs.append((_unum(subscription.user_id), _epnum(subscription.endpoint)))
-
-    publisher._post_webpush = fake_post                  # the fake sender
+    def observed():
+        """What left the process since the last clear: (row ids, (user, endpoint) pairs) of the subscribe calls."""
+        ids, pairs = [], []
+        for label, url in hooks.sent:
+            user, ep, rid = calls.get(label, (10 ** 6, _epnum(url), None))
+            if _epnum(url) != ep:
+                ep = _epnum(url)                         # delivered somewhere else than the subscription said
+            ids.append(rid if rid is not None else -1)
+            pairs.append((user, ep))
+        return ids, pairs
     obs = []
     eng: dict = {}                                       # the engine of the case: data, FromFrontend
 
@@ -229,8 +317,7 @@ def execute(case):
                 break
             await asyncio.sleep(0)
 
-    real_time = wpp.time
-    wpp.time = types.SimpleNamespace(time=lambda: float(NOW))
+    hooks.__enter__()
     try:
         for n, op in enumerate(case["ops"]):
             k = op[0]
@@ -256,18 +343,17 @@ def execute(case):
             if k == "act":
                 _, kind, actor, name, conf = op
                 rows = table_rows()
-                publisher.wp = Mock() if conf else None
-                posted.clear()
-                posted_pairs.clear()
+                _configure(publisher, conf)
+                hooks.sent.clear()
                 _run(do_act(kind, Mdl.Contributor(id=None if actor is None else f"user{actor}", name=f"name{name}")))
-                obs.append(("A", list(posted), rows, list(posted_pairs)))
+                obs.append(("A", *observed()[:1], rows, observed()[1]))
                 continue
             if k == "pub":
                 _, topic, uid, req, contribs, cid, conf, ts = op
                 with database.create_scope():
                     rows = [(r.id, _unum(r.user_id)) for r in
                             database.scoped_session().scalars(select(DMdl.WebPushSubscription)).all()]
-                publisher.wp = Mock() if conf else None
+                _configure(publisher, conf)
                 unit = Mdl.EngineData(engine_id=unit_name(uid), computer_name="c", engine_version="1", hardware_str="",
                                       uod_name="u", uod_author_name="", uod_author_email="", uod_filename="",
                                       location="", data_log_interval_seconds=1)
@@ -277,10 +363,9 @@ def execute(case):
                 notification = Mdl.WebPushNotification(
                     title="t", timestamp=ts,
                     data=Mdl.WebPushData(process_unit_id=unit_name(uid), contributor_id=None if cid is None else f"user{cid}"))
-                posted.clear()
-                posted_pairs.clear()
+                hooks.sent.clear()
                 _run(publisher.publish_message(notification, topics[topic], unit))
-                obs.append(("P", list(posted), rows, list(posted_pairs)))
+                obs.append(("P", observed()[0], rows, observed()[1]))
                 continue
             with database.create_scope():
                 s = database.scoped_session()
@@ -293,8 +378,10 @@ def execute(case):
                 elif k == "sub":
                     repo.store_subscription(WebPushSubscription(
                         endpoint=AnyHttpUrl(f"https://push.example/ep{endpoint_of(op, n)}"),
-                        keys=WebPushKeys(auth="a", p256dh="p")), f"user{op[1]}")
-                    obs.append(("id", max(r.id for r in s.scalars(select(DMdl.WebPushSubscription)).all())))
+                        keys=WebPushKeys(auth=f"call{n}", p256dh="p")), f"user{op[1]}")
+                    new_id = max(r.id for r in s.scalars(select(DMdl.WebPushSubscription)).all())
+                    calls[f"call{n}"] = (op[1], endpoint_of(op, n), new_id)
+                    obs.append(("id", new_id))
                 elif k == "del":
                     row = s.get(DMdl.WebPushSubscription, op[1])
                     gone = None
@@ -308,8 +395,26 @@ def execute(case):
                 else:
                     raise ValueError(k)
     finally:
-        wpp.time = real_time
+        hooks.__exit__(None, None, None)
     return obs
+
+
+def selfcheck() -> str | None:
+    """The hooks must see a delivery that is certain to happen: one user, access scope, the topic selected, an open
+    unit, one subscription. Returns a description of what is wrong, or None. A dead hook must never be read as
+    "nobody was notified"."""
+    case = {"ops": [["pref", 1, [], 0, [OTHER], []], ["sub", 1, 1], ["pub", OTHER, 0, [], [], None, True, FRESH],
+                    ["pub", OTHER, 0, [], [], None, False, FRESH]]}
+    try:
+        obs = execute(case)
+    except Exception as e:  # noqa: BLE001
+        return f"harness self-check could not drive the implementation: {type(e).__name__}: {str(e)[:200]}"
+    if list(obs[2][1]) != [1] or list(obs[2][3]) != [(1, 1)]:
+        return (f"harness self-check: the delivery to a trivially entitled subscriber was not observed at the HTTP boundary "
+                f"(observed {obs[2][3]!r}): the observation hook is dead, nothing can be concluded about notifications")
+    if list(obs[3][1]):
+        return "harness self-check: a publish with publishing not configured was observed (cannot switch the sender off)"
+    return None
 
 
 _OBS: dict[int, list] = {}
@@ -645,6 +750,12 @@ def _count(ctx: Check, case) -> None:
 def run(ctx: Check) -> int:
     ctx.prove(MODULE, REQUIRED)
     _init_topics()
+    dead = selfcheck()
+    if dead:
+        # broken tie, not a property failure: no oracle verdicts are taken from a run whose hooks do not work
+        ctx.proof_broken.append(dead)
+        ctx.notes.append(dead)
+        return ctx.finish()
     corpus = [_resolve(c) for c in load_corpus(ctx.id) if "ops" in c]
     small = gen_exhaustive() + gen_shared()
     e2e = gen_e2e_small() + gen_e2e(ctx, ctx.n(250, 5000))
@@ -652,7 +763,7 @@ def run(ctx: Check) -> int:
     bad = gen_malformed(ctx, ctx.n(200, 4000))
     like = gen_like()
     ctx.rule = ("histories of repository operations (save preferences = upsert, subscribe, delete row) and publishes, on "
-                "in-memory SQLite with a recording sender; posted row ids compared after every publish, new row ids after "
+                "in-memory SQLite, deliveries observed at the outgoing HTTP request; posted row ids compared after every publish, new row ids after "
                 "every subscribe. small: ALL combinations for one user with one subscription: roles x required roles "
                 "(subsets of 2) x scope x topic selected x contributed x unit listed x (other topic | new-contributor about "
                 "someone else | about the user) = 1152; plus two users posting the SAME endpoint in every order of 2-3 subscribe "
@@ -687,7 +798,9 @@ def run(ctx: Check) -> int:
     ctx.assumptions = ["preferences are written through WebPushRepository.store_notifications_preferences (topics are "
                        "NotificationTopic values)", "a subscription = one subscribe call of a user with an endpoint (the code as it is stores one row per call; the "
                        "oracle derives the subscriptions from the history, not from the table)",
-                       "time.time() inside webpush_publisher is pinned during a case",
+                       "time.time is pinned (on the time module) during a case; deliveries are observed at httpx.AsyncClient.send and "
+                       "labelled by a stub of webpush.WebPush.get (both patched on the library classes); a self-check at the start "
+                       "of every run proves the hooks see a certain delivery",
                        "process-unit ids used: " + ", ".join(f"{k}={v!r}" for k, v in sorted(UNIT_NAMES.items())) +
                        " (substrings / LIKE matches of each other on purpose)"]
     return ctx.finish(search=lambda c: c.monitor(gen_e2e_small() + gen_shared() + gen_e2e(c, 500) + gen_random(c, 1500)
